@@ -68,6 +68,8 @@ inductive Mut (α : Type) where
   | insert (i : Int) (v : HVal α)
   | delTok (i : Int)
   | setName (k : String) (v : HVal α)
+  | addOcc (k : String) (v : HVal α) (p : Int)   -- `self[k] = _ParseResultsWithOffset(v, p)` (what `+=` does per name)
+  | extendToks (vs : List (HVal α))               -- `self._toklist += other._toklist`
   | delName (k : String)
   | clear
 
@@ -100,8 +102,23 @@ def mutate (h : Heap α) (o : Nat) : Mut α → Heap α
     { h with occs := upd h.occs h.next (old ++ [(v, 0)]),
              dicts := upd h.dicts (h.objs o).dct (dset (h.dicts (h.objs o).dct) k h.next),
              next := h.next + 1 }
+  | .addOcc k v p =>
+    -- results.py:225-226 `self._tokdict[k] = self._tokdict.get(k, list()) + [v]`: also a NEW list (copy-on-write);
+    -- this is what keeps the occurrence lists a copy shares with its source (copy() copies the dict only) intact
+    let old := match dget (h.dicts (h.objs o).dct) k with
+      | some cell => h.occs cell
+      | none => []
+    { h with occs := upd h.occs h.next (old ++ [(v, p)]),
+             dicts := upd h.dicts (h.objs o).dct (dset (h.dicts (h.objs o).dct) k h.next),
+             next := h.next + 1 }
+  | .extendToks vs => { h with lists := upd h.lists (h.objs o).lst (h.lists (h.objs o).lst ++ vs) }
   | .delName k => { h with dicts := upd h.dicts (h.objs o).dct (ddel (h.dicts (h.objs o).dct) k) }
   | .clear => { h with lists := upd h.lists (h.objs o).lst [], dicts := upd h.dicts (h.objs o).dct [] }
+
+/-- `self += other` (results.py:454-476) as a sequence of own mutations of `self`: one `addOcc` per occurrence of
+    `other` (positions re-based by `len(self)`), then the tokens (`_all_names` is a field of the object, not a cell) -/
+def iaddMuts (offset : Int) (items : List (String × (HVal α × Int))) (toks : List (HVal α)) : List (Mut α) :=
+  items.map (fun kv => Mut.addOcc kv.1 kv.2.1 (if kv.2.2 < 0 then offset else kv.2.2 + offset)) ++ [.extendToks toks]
 
 def mutateAll (h : Heap α) (o : Nat) : List (Mut α) → Heap α
   | [] => h
@@ -164,6 +181,12 @@ def sharing (kind probe : String) : Option Bool :=
     else if probe = "own-insert" then some (changed (mutate h1 c (.insert 0 (.atom "z"))) 5)
     else if probe = "own-delname" then some (changed (mutate h1 c (.delName "g")) 5)
     else if probe = "own-clear" then some (changed (mutate h1 c .clear) 5)
+    -- `c += other` where `other` binds `x` (a name the source has) and `g`, and brings one token
+    else if probe = "own-iadd-shared-name" then
+      some (changed (mutateAll h1 c (iaddMuts 2 [("x", (.atom "new", 0)), ("g", (.atom "new", 0))] [.atom "new"])) 5)
+    else if probe = "orig-iadd-shared-name" then
+      some (decide (view (mutateAll h1 5 (iaddMuts 2 [("x", (.atom "new", 0)), ("g", (.atom "new", 0))] [.atom "new"])) c
+                      ≠ view h1 c))
     else if probe = "orig-append" then some (decide (view (mutate h1 5 (.append (.atom "z"))) c ≠ view h1 c))
     else if probe = "orig-setname" then some (decide (view (mutate h1 5 (.setName "x" (.atom "new"))) c ≠ view h1 c))
     else if probe = "nested-via-token" then tokRef.map (fun n => changed (mutate h1 n (.append (.atom "z"))) 5)
